@@ -130,19 +130,19 @@ def mutators():
     def flip_verifies_honest(t):
         e = ev(t, "Combine")
         if e and e["sub"]["kind"] == "none":
-            e["verifies"] = False
+            e["verifiesAll"] = False
             return t
 
     def flip_verifies_subst(t):
         e = ev(t, "Combine")
         if e and e["sub"]["kind"] != "none":
-            e["verifies"] = True
+            e["verifiesAny"] = True
             return t
 
     def agg_differs(t):
         e = ev(t, "Combine")
         if e and e["sub"]["kind"] == "none":
-            e["aggEq"] = False
+            e["aggEqAll"] = False
             return t
 
     def wrong_secret(t):
@@ -195,7 +195,7 @@ def run(tier, seed):
     # stage 0: the algebra, exhaustively over small fields (states = cases), and two controls that MUST be violated
     cfgs = ["ThresholdBLSMC_p5.cfg", "ThresholdBLSMC_p7.cfg", "ThresholdBLSMC_p11.cfg"]
     if thorough:
-        cfgs += ["ThresholdBLSMC_p7t4.cfg", "ThresholdBLSMC_p7n5.cfg", "ThresholdBLSMC_p11n6.cfg", "ThresholdBLSMC_p13n7.cfg"]
+        cfgs += ["ThresholdBLSMC_p7t4.cfg", "ThresholdBLSMC_p7n5.cfg", "ThresholdBLSMC_p11n5.cfg", "ThresholdBLSMC_p11n6.cfg"]
     for cfg in cfgs:
         r = vlib.tlc(PID, FAMILY, "ThresholdBLSMC", cfg, timeout=1700)
         vlib.require_mc_ok(r, cfg)
@@ -210,7 +210,7 @@ def run(tier, seed):
     cases, g = enumerate_cases("ThresholdBLSGen_thorough.cfg" if thorough else "ThresholdBLSGen_quick.cfg")
     o.extra["cases_enumerated_by_tlc"] = len(cases)
     o.extra["exhaustive_upto_n"] = 7 if thorough else 5
-    enum = decorate_all(cases, seed, 3 if thorough else 1, "enum")
+    enum = decorate_all(cases, seed, 2 if thorough else 1, "enum")
     spec = special(cases, seed, 3000 if thorough else 300)
     big = sampled(seed, 6000 if thorough else 500)
     # stage 2+3
